@@ -45,6 +45,40 @@ def sweep_one(job, case):
     return {"viol": msgs, "obs": dg, "nt": dg if nt else None, "cls": msgs[0].split(":")[0] if msgs else None}
 
 
+SHAPES = [
+    {"k": "add_test", "args": ["smoke", "prog", "--flag"]},                      # the short signature, no NAME keyword
+    {"k": "add_test", "args": ["smoke", "${CMAKE_COMMAND}", "--version"]},
+    {"k": "add_test", "args": ["COMMAND", "prog", "NAME", "late_name"]},
+    {"k": "add_test", "args": ["NAME", "t", "COMMAND", "prog", '"two  blanks"', "CONFIGURATIONS", "Debug"]},
+    {"k": "generic", "cmd": "message", "args": ["STATUS", '"name    value"']},   # white space inside arguments is text
+    {"k": "generic", "cmd": "string", "args": ["REPLACE", '"  "', '" "', "out", '"${in}"']},
+    {"k": "generic", "cmd": "message", "args": ['"tab\there"', '" lead"', '"trail "']},
+    {"k": "generic", "cmd": "list", "args": ["APPEND", "L", "a;b", "[[x  y]]", "c\\ \\ d"]},
+    {"k": "option", "help": '"two  blanks  help"', "default": "ON"},
+    {"k": "function", "params": ["a", "b", "c", "d", "e"]},
+    {"k": "function", "params": []},
+    {"k": "macro", "params": []},
+    {"k": "ct_add_test", "expectfail": 1},
+    {"k": "cpp_class", "bases": ["B1", "B2", "B3"]},
+]
+
+
+def shape_jobs():
+    """argument shapes of single commands the BFS alphabet has one spelling of, documented and not, at five positions"""
+    jobs = []
+    for sh in SHAPES:
+        for doc in (1, 0):
+            ev = dict(sh, doc=doc)
+            tail = [{"k": "close"}] if ev["k"] in ("function", "macro", "ct_add_test", "cpp_class") else []
+            for pos in ([ev] + tail,
+                        [{"k": "function", "doc": 1, "params": []}, ev] + tail,
+                        [{"k": "if", "doc": 0}, ev] + tail,
+                        [{"k": "cpp_class", "doc": 1}, {"k": "close"}, ev] + tail + [{"k": "set", "doc": 1}],
+                        [{"k": "generic", "doc": 1}, ev] + tail + [{"k": "generic", "doc": 1}]):
+                jobs.append((pos, False))
+    return jobs
+
+
 def all_histories(n, maxnest):
     level = [[]]
     out = []
@@ -68,6 +102,7 @@ def run(ctx):
     hs = all_histories(SWEEP[t], MAXNEST[t] + 1)
     ctx.sweep(functools.partial(sweep_one, case=cases[1]), [(h, t) for h in hs for t in (True, False)],
               space="no-dedup sweep (with and without a trailing dangling doccomment)")
+    ctx.sweep(functools.partial(sweep_one, case=cases[2]), shape_jobs(), space="argument shapes x positions")
     ctx.assumptions += ["documented implementing definitions are outside the domain (claimed by two clauses of the statement)",
                         "generic command names are compared in lower case (C04 requires case-independent output)",
                         "wording of notes/warnings is matched by the keywords the statement names"]
